@@ -491,7 +491,7 @@ static void run_case(vh_ctx *c)
     if (vh_coin(c, 0.3)) np = 1;
     fan = npc * (nb + 1) * np;
     while (np > 1 && fan > 200) { np = np > 8 ? 8 : np - 1; fan = npc * (nb + 1) * np; }
-    initMatrix(&ps); initTensor(&pbs);
+    ps = drv_out_matrix(c, n, npc, 1); initTensor(&pbs);
     libsci_verif_nprocs = np;
     CPCAScorePredictor(x, m, npc, ps, pbs);
     libsci_verif_nprocs = 1;
